@@ -620,6 +620,17 @@ func denoteNative(id int, v *Val, dec bool) (*CV, bool, bool) {
 			}
 			return bad()
 		}
+		if !dec && v.K == "str" && !v.T.Named {
+			// "inet | string | IPv4 or IPv6 address string": the address net.ParseIP reads, in its shortest form
+			// (4 bytes for an IPv4 address however it is spelled, else 16), as for a net.IP source
+			if ip := net.ParseIP(string(v.S)); ip != nil {
+				if v4 := ip.To4(); v4 != nil {
+					return &CV{K: "bytes", S: []byte(v4)}, false, true
+				}
+				return &CV{K: "bytes", S: []byte(ip.To16())}, false, true
+			}
+			return bad()
+		}
 		if v.K == "ip" {
 			b := v.S
 			if len(b) == 16 {
